@@ -57,6 +57,24 @@ CLAIMED["C16"] = (
     "outside_model_fragment); amd64 float->int64 conversion semantics.",
     "DESIGN.md 4 C16")
 
+CLAIMED["C05"] = (
+    "Coq model of the whole recursive-descent parser + proofs (selector round trip by induction, validate() rules) + differential correspondence logql.Parse vs model + generator-computed expected trees; token/precedence tables regenerated from the Go source on every run",
+    "The token-level parser model (Model/Parser.v: every parseX of parser*.go incl. validate()) is compared with logql.Parse on the exact tree for random grammar-derived queries in three layouts "
+    "(incl. comments, both quoting styles), a list of statically invalid queries and single-token corruptions; what the text denotes is computed independently by the generator and checked on the "
+    "implementation's output. Proved: parse_print_selector_partial (round trip for selectors with any number of matchers), seven static-rule theorems about validate(). PARTIAL: parse(print c)=abs c for the "
+    "rest of the grammar and parse soundness are not theorems yet; the text/scanner lexer is not modelled (the model parser consumes Go's token list).",
+    "Trusted: Coq kernel + vm_compute; tools/gentables.py (regex-level translator of token.go/op.go tables into Model/Tables.v); per-token library results (ParseFloat, Atoi, durations, bytes, regexp.Compile) recorded by the harness "
+    "and passed to the model as oracle fields; generator's notion of the denoted tree (tools/qgen.py).",
+    "DESIGN.md 4 C05")
+CLAIMED["C13"] = (
+    "Coq proof by complete enumeration (reflection) of the bounded domain the property names + differential correspondence on parse trees; precedence table regenerated from op.go on every run",
+    "Theorems for ALL chains of up to five operands over the fifteen operators (54,241 operator sequences enumerated inside Coq by vm_compute, bound stated in the theorems): parse_as_is (complete characterisation of the grouping the parser "
+    "produces), prec_table_conventional, parse_conv_partial (outside the equal-precedence region the tree IS the conventional one, ^ right-associative), parse_conv_refuted (0-1+2 parses as 0-(1+2): finding D11, pinned by TestParse, "
+    "listed in known_findings.json). The check parses every chain of <=4 operands (thorough: all 15^4 five-operand chains) plus parenthesised variants with the real parser and compares with the conventional tree; cases in the D11 region are "
+    "attributed to the finding only when the implementation's tree equals the faithful model's.",
+    "Trusted: Coq kernel + vm_compute; tools/gentables.py translator; grouping observed at parse level (evaluation of a given tree is C12).",
+    "DESIGN.md 4 C13")
+
 REASON_PENDING = "check not built yet in this round; planned (see DESIGN.md section 4/8) - no claim is made until the proof and correspondence exist"
 
 def main():
